@@ -53,7 +53,9 @@ def run(chk):
                 env = {"LOUIS_TABLEPATH": envpath}
                 clines = ["P %s | %s" % (name, inc_main), "A %s" % inc_main, "P %s | -" % lst, "A %s" % lst,
                           # history: same queries again, other order, no lou_free in between
-                          "A+ %s" % lst, "A+ %s" % inc_main]
+                          "A+ %s" % lst, "A+ %s" % inc_main,
+                          # the translation part compiled alone (another entry point into the same resolution)
+                          "E %s" % inc_main, "E %s" % lst]
                 mlines = ["RS %s | %s | %s | %s" % (name, inc_main, envpath, REPO / "tables"),
                           "RS %s | - | %s | %s" % (lst, envpath, REPO / "tables")]
                 rc, out, err = common.sh([str(exe)], input="\n".join(clines) + "\n", env=dict(common.ASAN_ENV, **env), cwd=str(work / "cwd"))
@@ -62,10 +64,16 @@ def run(chk):
                 mo = mo.strip().split("\n")
                 case = dict(form=form, name=name, present=dict(zip(["including_dir", "as_given", "path1", "path2"], pattern)),
                             LOUIS_TABLEPATH=envpath, cwd=W + "/cwd")
-                if rc != 0 or len(co) != 6 or rc2 != 0 or len(mo) != 2:
+                if rc != 0 or len(co) != 8 or rc2 != 0 or len(mo) != 2:
                     chk.count(str(case))
                     chk.violation("crash", "resolver harness failed rc=%s/%s: %s %s" % (rc, rc2, common.asan_summary(err), err2[-300:]), case)
                     continue
+                for kind, ce, mp in (("include", co[6], mo[0]), ("list", co[7], mo[1])):
+                    want = "E 0" if mp == "P FAIL" else "E 1"
+                    if ce.strip() != want:
+                        chk.violation("translation-only-compile:%s/%s" % (form, kind),
+                                      "compiling the translation part alone (lou_getEmphClasses) answers %s where the resolution says %s" % (ce.strip(), mp[:120]),
+                                      dict(case, kind=kind, impl=ce, model_paths=mp))
                 for kind, cp, ca, ca2, mp in (("include", co[0], co[1], co[5], mo[0]), ("list", co[2], co[3], co[4], mo[1])):
                     total += 1
                     key = (envpath, form, pattern, kind)
